@@ -43,11 +43,11 @@ pub fn read_retry<R: Read>(rd: &mut R, buf: &mut Vec<u8>) -> (r: io::Result<usiz
 #[verifier::external_body]
 pub fn unterminated_quote_error() -> io::Error { io::Error::new(io::ErrorKind::InvalidInput, "Unterminated quote") }
 
-// `String::from_utf8_lossy(&v[..]).into_owned().into()`
+// `os_string_from_bytes(&v[..])` = `OsString::from_vec(bytes.to_vec())` (unix): the bytes themselves
 #[verifier::external_body]
-pub fn osstring_from_utf8_lossy(v: &Vec<u8>) -> (r: OsString)
-    ensures osv(r) == lossy(v@)
-{ String::from_utf8_lossy(&v[..]).into_owned().into() }
+pub fn osstring_from_bytes(v: &Vec<u8>) -> (r: OsString)
+    ensures osv(r) == v@
+{ std::os::unix::ffi::OsStringExt::from_vec(v.clone()) }
 
 #[verifier::external_type_specification]
 #[verifier::external_body]
@@ -77,6 +77,6 @@ pub fn bufread_until<R: Read>(rd: &mut BufReader<R>, delim: u8, buf: &mut Vec<u8
 { rd.read_until(delim, buf) }
 
 #[verifier::external_body]
-pub fn osstring_from_utf8_lossy_slice(v: &[u8]) -> (r: OsString)
-    ensures osv(r) == lossy(v@)
-{ String::from_utf8_lossy(v).into_owned().into() }
+pub fn osstring_from_bytes_slice(v: &[u8]) -> (r: OsString)
+    ensures osv(r) == v@
+{ std::os::unix::ffi::OsStringExt::from_vec(v.to_vec()) }
